@@ -17,6 +17,16 @@ Theorem C05_converged_sound : forall p r old script i k st n,
 Proof. exact converged_sound. Qed.
 Print Assumptions C05_converged_sound.
 
+(* every solve - the first and every later one on the same unit - starts from the scalar nan, so it ends without the warning only if two
+   consecutive iterates of THIS solve agree within the precision *)
+Theorem C05_every_solve_needs_two_agreeing_iterates : forall p maxit script k st n,
+  solve p maxit SNan script = (Converged k, st, n) ->
+  (exists cur, nth_error script (k - 1) = Some (IVec cur) /\
+     ((k = 1%nat /\ cur = []) \/
+      (2 <= k /\ exists prev, nth_error script (k - 2) = Some (IVec prev) /\ close p (SVec prev) cur = VTrue /\ st = SVec prev)%nat)).
+Proof. exact solve_converged_needs_two_iterates. Qed.
+Print Assumptions C05_every_solve_needs_two_agreeing_iterates.
+
 Theorem C05_fresh_unit_needs_two_iterations : forall p v, v <> [] -> close p SNan v = VFalse.
 Proof. exact fresh_unit_needs_two_iterations. Qed.
 Print Assumptions C05_fresh_unit_needs_two_iterations.
